@@ -26,6 +26,8 @@ var pathDocs = []string{
 	`[0,-0,1.5,-2,1e300,"1","abc",true,false,null,[1],{"a":1}]`,
 	`{"n":[1,2,3,4,5,6,7,8,9,10],"s":["a","b","c"],"m":[[1,2],[3,4,5],[],[6]]}`,
 	`7`, `"str"`, `null`, `[]`, `{}`, `[1e400,1]`,
+	// escapes followed by a long tail (an in-place or pooled unescape shows only when the rest of the string is long), in values and keys
+	`{"msg":"line1\nline2 and a rather long tail","k\tey with a long tail":[1,"x\u0041yz and some more text here"],"list":[{"msg":"tab\there and a long tail after it","id":1},{"msg":"plain","id":2}]}`,
 	// members whose VALUE names a key or index of the same container (script segments reading their key from the container)
 	`[{"k":"a","a":1},{"a":2},{"k":"a","a":3},{"k":null,"a":4},{"k":[1],"a":5},{"k":{"a":1},"a":6},{"k":"zz","a":7},{"k":true,"a":8},{"k":"k"}]`,
 	`{"x":[1,"p","q"],"y":[],"z":[2,"r","s"],"w":[[0],"t"],"v":[null,"u"],"u":[-1,"t","last"],"t":{"0":"k","k":"v"},"s":[7,"q"]}`,
@@ -188,6 +190,7 @@ func init() {
 
 func (s *Session) execQuery(f []string) (obs string) {
 	noteOp(f)
+	defer opDone()
 	defer func() {
 		if r := recover(); r != nil {
 			obs = fmt.Sprintf("panic %v", r)
@@ -458,6 +461,9 @@ func streamPath(o *Out, r *Rng, tier string) {
 		} else {
 			o.Stat("session.fresh")
 		}
+		if p.s.poisoned {
+			continue
+		}
 		emit([]string{"dump"}, p.s.dump())
 		names := map[string]bool{}
 		for _, h := range p.s.handles {
@@ -594,27 +600,53 @@ func streamOperandMatrix(o *Out, r *Rng, tier string) {
 		}
 	}
 	// node-returning and aggregate functions on roots of different provenance
-	roots := []func(g *HistGen){
-		func(g *HistGen) { g.do("parse", hexOrDash([]byte(`[1,"x",[3],{"a":4}]`))) },
-		func(g *HistGen) { // a parsed root rebuilt by SetArray: an array without source text
+	roots := []func(g *HistGen) string{
+		func(g *HistGen) string { g.do("parse", hexOrDash([]byte(`[1,"x",[3],{"a":4}]`))); return "0" },
+		func(g *HistGen) string { // a parsed root rebuilt by SetArray: an array without source text
 			g.do("parse", hexOrDash([]byte(`{"old":true}`)))
 			a, b := g.freshNum(), g.freshNum()
 			g.do("setarr", "0", a+","+b)
+			return "0"
 		},
-		func(g *HistGen) { // a parsed root rebuilt by SetObject
+		func(g *HistGen) string { // a parsed root rebuilt by SetObject
 			g.do("parse", hexOrDash([]byte(`[0]`)))
 			a := g.freshNum()
 			g.do("setobj", "0", hexOrDash([]byte("k"))+"="+a)
+			return "0"
 		},
-		func(g *HistGen) { // a tree built by the constructors (handle 0 must be the root: build children first, then rebind)
+		func(g *HistGen) string { // built by the constructor and grown by AppendArray
 			g.do("arr", "-", "e")
 			a, b := g.freshNum(), g.freshNum()
 			g.do("apparr", "0", a+","+b)
+			return "0"
 		},
-		func(g *HistGen) {
+		func(g *HistGen) string {
 			g.do("obj", "-", "e")
 			a := g.freshNum()
 			g.do("appobj", "0", hexOrDash([]byte("k")), a)
+			return "0"
+		},
+		func(g *HistGen) string { // ArrayNode given nodes that carry keys of their own (the constructors keep the key)
+			g.do("str", hexOrDash([]byte("name")), hexOrDash([]byte("v")))
+			g.do("num", hexOrDash([]byte("k")), hex64(0x3FF0000000000000))
+			g.do("arr", hexOrDash([]byte("top")), "0,1")
+			return "2"
+		},
+		func(g *HistGen) string { // ObjectNode given nodes whose own key differs from the member name, one of them a former array element
+			g.do("parse", hexOrDash([]byte(`[10,20]`)))
+			g.do("popidx", "0", "1")
+			g.do("null", hexOrDash([]byte("other")))
+			g.do("obj", "-", hexOrDash([]byte("k"))+"=1,"+hexOrDash([]byte("a"))+"=2")
+			return "3"
+		},
+		func(g *HistGen) string { // a member moved from an object into an array and an element moved into an object
+			g.do("parse", hexOrDash([]byte(`{"k":{"a":1},"arr":[[5],6]}`)))
+			g.do("getkey", "0", hexOrDash([]byte("k")))
+			g.do("getkey", "0", hexOrDash([]byte("arr")))
+			g.do("apparr", "2", "1")
+			g.do("getidx", "2", "0")
+			g.do("appobj", "0", hexOrDash([]byte("moved")), "3")
+			return "0"
 		},
 	}
 	self := []*Expr{
@@ -622,15 +654,27 @@ func streamOperandMatrix(o *Out, r *Rng, tier string) {
 		{Kind: "path", Path: []Sel{{Kind: "current"}, {Kind: "wild"}}}, {Kind: "path", Path: []Sel{{Kind: "root"}, {Kind: "descent"}}},
 		{Kind: "path", Path: []Sel{{Kind: "current"}, {Kind: "index", Index: 0}}}, {Kind: "path", Path: []Sel{{Kind: "current"}, {Kind: "name", Name: "k"}}},
 	}
+	self = append(self,
+		&Expr{Kind: "path", Path: []Sel{{Kind: "current"}, {Kind: "index", Index: 1}}}, &Expr{Kind: "path", Path: []Sel{{Kind: "current"}, {Kind: "name", Name: "a"}}},
+		&Expr{Kind: "path", Path: []Sel{{Kind: "root"}, {Kind: "descent"}, {Kind: "wild"}}}, &Expr{Kind: "path", Path: []Sel{{Kind: "current"}, {Kind: "name", Name: "moved"}}},
+		&Expr{Kind: "path", Path: []Sel{{Kind: "current"}, {Kind: "name", Name: "arr"}, {Kind: "index", Index: -1}}})
 	for _, build := range roots {
-		p = newSession(build)
+		startH := "0"
+		p = newSession(func(g *HistGen) { startH = build(g) })
 		for _, fn := range []string{"first", "last", "parent", "root", "key", "length", "size", "sum", "avg", "not", "is_array", "is_object"} {
 			for _, a := range self {
 				count = 1
 				o.Stat("matrix.queries")
-				if !runQuery(o, p, -1, r, "0", false, printExpr(&Expr{Kind: "call", Name: fn, L: a}, nil), nil, &Expr{Kind: "call", Name: fn, L: a}, false) {
+				if !runQuery(o, p, -1, r, startH, false, printExpr(&Expr{Kind: "call", Name: fn, L: a}, nil), nil, &Expr{Kind: "call", Name: fn, L: a}, false) {
 					return
 				}
+			}
+		}
+		// and the filter forms of the node functions over the children of that root
+		for _, text := range []string{"@[?(key(@) == 'a')]", "@[?(key(@) == 'name')]", "@[?(key(@))]", "@[?(parent(@))]", "@[?(root(@))]", "$..[?(key(@) == 'k')]"} {
+			o.Stat("matrix.queries")
+			if !runQuery(o, p, -1, r, startH, true, text, nil, nil, true) {
+				return
 			}
 		}
 	}
